@@ -59,8 +59,19 @@ func (p *ConfigProp[T]) Stage(newValue T) {
 	if p.requiresRestart && (oldVal != newValue) {
 		setRestartNeeded()
 	}
+}
 
-	p.onChange.Fire(newValue)
+// Drops a staged value that will not be committed.
+func (p *ConfigProp[T]) DiscardStaged() {
+	commit, _ := p.value.Load()
+	commit.Uncommit()
+	p.value.Store(commit)
+}
+
+// Tells the listeners about the value that is now in effect (a command-line override, when there
+// is one, stays in effect). Called once an update has been committed, never for a rejected one.
+func (p *ConfigProp[T]) NotifyCommitted() {
+	p.onChange.Fire(p.Read())
 }
 
 func (p *ConfigProp[T]) CommitStaged() {
